@@ -565,7 +565,7 @@ Proof.
   assert (Hpb : positional_word bits = true).
   { unfold valid_bits in Hb. apply orb_true_iff in Hb. destruct Hb as [Hb|Hb]; [apply orb_true_iff in Hb; destruct Hb as [Hb|Hb]|];
       apply bstr_eqb_eq in Hb; subst; reflexivity. }
-  destruct s0 as [tb acc us ow pf pr used gi go calls]. cbn in Ht, Hacc, Hused. subst tb acc used.
+  destruct s0 as [tb acc us ow pf pr rs used gi go calls]. cbn in Ht, Hacc, Hused. subst tb acc used.
   cbn [a_loop].
   rewrite a_step_enc_positional by (first [exact Hu | reflexivity]). rewrite a_manual_enc_positional. cbn [a_used_enc_pw a_acc app a_set_acc].
   cbn [a_loop].
